@@ -1,5 +1,100 @@
 (* C02Proofs.v — lemmas behind props/C02.v *)
-From SV Require Import Base Json MD5 Canon FS Ws CorrC02.
+From SV Require Import Base Json MD5 Canon FS Ws WsLemmas CorrC02.
+
+(* ------------------------------------------------------------------ id / prefix resolution *)
+Lemma filter_all_eq : forall (P : str -> bool) (ids : list str) m,
+  NoDup ids -> In m ids -> P m = true -> (forall m', In m' ids -> P m' = true -> m' = m) ->
+  filter P ids = [m].
+Proof.
+  intros P ids m Hnd Hin Hp Huniq.
+  induction ids as [|x ids IH]; [contradiction|].
+  inversion Hnd as [|? ? Hx Hnd']; subst. simpl.
+  destruct Hin as [->|Hin].
+  - rewrite Hp. f_equal.
+    assert (Hnone : forall y, In y ids -> P y = false).
+    { intros y Hy. destruct (P y) eqn:E; auto.
+      assert (y = m) by (apply Huniq; simpl; auto). subst. contradiction. }
+    clear - Hnone. induction ids as [|y ids IH]; simpl; auto.
+    rewrite (Hnone y) by (simpl; auto). apply IH. intros z Hz. apply Hnone. simpl. auto.
+  - destruct (P x) eqn:E.
+    + assert (x = m) by (apply Huniq; simpl; auto). subst. contradiction.
+    + apply IH; auto. intros m' Hm'. apply Huniq. simpl. auto.
+Qed.
+
+Lemma filter_two : forall (P : str -> bool) (ids : list str) a b,
+  In a ids -> In b ids -> a <> b -> P a = true -> P b = true ->
+  exists x y r, filter P ids = x :: y :: r.
+Proof.
+  intros P ids a b Ha Hb Hab Pa Pb.
+  assert (Hfa : In a (filter P ids)) by (apply filter_In; auto).
+  assert (Hfb : In b (filter P ids)) by (apply filter_In; auto).
+  destruct (filter P ids) as [|x [|y r]]; [contradiction| |eauto].
+  simpl in Hfa, Hfb. destruct Hfa as [<-|[]]. destruct Hfb as [<-|[]]. contradiction.
+Qed.
+
+Lemma filter_none : forall (P : str -> bool) (ids : list str),
+  (forall m, In m ids -> P m = false) -> filter P ids = [].
+Proof.
+  intros P ids H. induction ids as [|x ids IH]; simpl; auto.
+  rewrite (H x) by (simpl; auto). apply IH. intros m Hm. apply H. simpl. auto.
+Qed.
+
+Lemma resolve_unique : forall ids present i m,
+  NoDup ids -> (length i < 32)%nat -> In m ids -> str_prefix i m = true ->
+  (forall m', In m' ids -> str_prefix i m' = true -> m' = m) ->
+  resolve_ids ids present i = inl m.
+Proof.
+  intros ids present i m Hnd Hlen Hin Hp Hu. unfold resolve_ids.
+  apply Nat.ltb_lt in Hlen. rewrite Hlen.
+  rewrite (filter_all_eq (str_prefix i) ids m Hnd Hin Hp Hu). reflexivity.
+Qed.
+
+Lemma resolve_ambiguous : forall ids present i a b,
+  (length i < 32)%nat -> In a ids -> In b ids -> a <> b ->
+  str_prefix i a = true -> str_prefix i b = true ->
+  resolve_ids ids present i = inr (FExn ELookupError).
+Proof.
+  intros ids present i a b Hlen Ha Hb Hab Pa Pb. unfold resolve_ids.
+  apply Nat.ltb_lt in Hlen. rewrite Hlen.
+  destruct (filter_two (str_prefix i) ids a b Ha Hb Hab Pa Pb) as [x [y [r ->]]]. reflexivity.
+Qed.
+
+Lemma resolve_unknown : forall ids present i,
+  (length i < 32)%nat -> (forall m, In m ids -> str_prefix i m = false) ->
+  resolve_ids ids present i = inr (FExn EKeyError).
+Proof.
+  intros ids present i Hlen H. unfold resolve_ids.
+  apply Nat.ltb_lt in Hlen. rewrite Hlen. rewrite (filter_none _ _ H). reflexivity.
+Qed.
+
+Lemma resolve_full : forall ids present i,
+  (32 <= length i)%nat ->
+  resolve_ids ids present i = if present i then inl i else inr (FExn EKeyError).
+Proof.
+  intros ids present i Hlen. unfold resolve_ids.
+  assert (H : Nat.ltb (length i) 32 = false) by (apply Nat.ltb_ge; auto). rewrite H. reflexivity.
+Qed.
+
+(* the oracle's expectation for open_job(id=...) is the model's resolution on the same id list *)
+Lemma resolve_expect : forall ids i,
+  expect_open ids i =
+  match resolve_ids ids (fun x => str_mem x ids) i with
+  | inl m => VStr m
+  | inr e => VExn (exn_of e)
+  end.
+Proof.
+  intros ids i. unfold expect_open, resolve_ids.
+  destruct (Nat.ltb (length i) 32).
+  - destruct (filter (str_prefix i) ids) as [|x [|y r]]; reflexivity.
+  - destruct (str_mem i ids); reflexivity.
+Qed.
+
+(* ------------------------------------------------------------------ laziness: read-only operations *)
+Definition readonly (o : op) : bool :=
+  match o with
+  | OOpenSp _ _ | OOpenId _ _ | OSp _ | OCached _ | OIdPath _ | OIds _ | OLen _ | OContains _ _ | OTree => true
+  | _ => false
+  end.
 
 Section S.
   Variable frepr : fl -> str.
@@ -7,4 +102,184 @@ Section S.
   Lemma open_sp_no_fs_effect : forall w s sp,
     w_fs (fst (open_sp frepr w s sp)) = w_fs w /\ w_tr (fst (open_sp frepr w s sp)) = w_tr w.
   Proof. intros. split; reflexivity. Qed.
+
+  Lemma sp_read_fs : forall w h,
+    w_fs (fst (sp_read frepr w h)) = w_fs w /\ w_tr (fst (sp_read frepr w h)) = w_tr w.
+  Proof.
+    intros w h. unfold sp_read. pose proof (sp_access_fs frepr w h) as H.
+    destruct (sp_access frepr w h) as [w1 [ci|e]]; simpl in *; auto.
+  Qed.
+
+  Lemma readonly_no_fs_effect : forall w q o,
+    readonly o = true ->
+    let '(w1, q1, out) := step frepr w q o in
+    w_fs w1 = w_fs w /\ w_tr w1 = w_tr w /\ q1 = q.
+  Proof.
+    intros w q o H. destruct o; simpl in H; try discriminate; simpl.
+    - auto.
+    - pose proof (open_id_fs w s i) as Hf. destruct (open_id w s i) as [w1 r]. simpl in *. tauto.
+    - pose proof (sp_read_fs w h) as Hf. destruct (sp_read frepr w h) as [w1 r]. simpl in *. tauto.
+    - pose proof (cached_sp_fs frepr w h) as Hf. destruct (cached_sp frepr w h) as [w1 r]. simpl in *. tauto.
+    - auto.
+    - auto.
+    - auto.
+    - auto.
+    - auto.
+  Qed.
+
+  (* ... and the model's own OQuiet observation after a read-only operation is "nothing was touched" *)
+  Lemma readonly_quiet : forall w o,
+    readonly o = true ->
+    let '(w1, q1, _) := step frepr w (length (w_tr w)) o in
+    snd (step frepr w1 q1 OQuiet) = VBool true.
+  Proof.
+    intros w o H. pose proof (readonly_no_fs_effect w (length (w_tr w)) o H) as Hr.
+    destruct (step frepr w (length (w_tr w)) o) as [[w1 q1] out]. destruct Hr as [_ [Ht ->]].
+    simpl. rewrite Ht, Nat.eqb_refl. reflexivity.
+  Qed.
+
+  (* no aliasing: the handle returned by open_job(sp) keeps showing sp whatever happens to other values *)
+  Lemma open_sp_reads_back : forall w s sp,
+    let '(w1, h) := open_sp frepr w s sp in
+    snd (sp_read frepr w1 h) = inl sp /\ snd (cached_sp frepr w1 h) = inl sp /\ h_id (getH w1 h) = calc_id frepr sp.
+  Proof.
+    intros w s sp. unfold open_sp.
+    assert (Hh : getH (add_H w (mkH s (calc_id frepr sp) (Some sp) None false)) (length (w_hs w))
+                 = mkH s (calc_id frepr sp) (Some sp) None false).
+    { unfold getH, add_H. simpl. apply nth_app_new. }
+    repeat split.
+    - unfold sp_read, sp_access. rewrite Hh. simpl.
+      unfold getC, set_H, add_C. simpl. rewrite nth_app_new. reflexivity.
+    - unfold cached_sp. rewrite Hh. reflexivity.
+    - rewrite Hh. reflexivity.
+  Qed.
+
+  (* ---------------------------------------------------------------- init *)
+  Lemma cell_loaded_fs : forall w ci v, w_fs (cell_loaded w ci v) = w_fs w /\ w_tr (cell_loaded w ci v) = w_tr w.
+  Proof. intros. split; reflexivity. Qed.
+
+  (* never rewrites a valid file: when the state point file loads and validates, init performs no
+     file-system step at all *)
+  Lemma init_valid_no_write : forall susp force w h,
+    (let '(w1, r) := sp_access frepr w h in
+     exists ci v, r = inl ci /\ load_file frepr w1 (getH w1 h) = inl v) ->
+    let '(w', r') := init frepr susp force w h in
+    r' = inl tt /\ w_fs w' = w_fs w /\ w_tr w' = w_tr w.
+  Proof.
+    intros susp force w h H. unfold init.
+    pose proof (sp_access_fs frepr w h) as Hfs.
+    destruct (sp_access frepr w h) as [w1 r]. destruct H as [ci [v [-> Hl]]].
+    rewrite Hl. simpl in *. tauto.
+  Qed.
+
+  (* load_file only looks at the file system, the project root and the handle's id *)
+  Lemma load_file_ext : forall w w' h h',
+    w_fs w = w_fs w' -> s_root (getS w (h_s h)) = s_root (getS w' (h_s h')) -> h_id h = h_id h' ->
+    load_file frepr w h = load_file frepr w' h'.
+  Proof.
+    intros w w' h h' Hf Hr Hi. unfold load_file, spfile, jobdir, wsp. rewrite Hf, Hr, Hi. reflexivity.
+  Qed.
+
+  Lemma sp_access_len : forall w h, length (w_hs (fst (sp_access frepr w h))) = length (w_hs w).
+  Proof.
+    intros w h. unfold sp_access.
+    destruct (h_cell (getH w h)); [reflexivity|].
+    destruct (h_cached (getH w h)); [simpl; apply length_set_nth|].
+    destruct (load_file frepr w (getH w h)); simpl; [apply length_set_nth|reflexivity].
+  Qed.
+
+  (* after a successful access the handle owns the returned cell, and id / project are untouched *)
+  Lemma sp_access_cell : forall w h w1 ci,
+    (h < length (w_hs w))%nat -> sp_access frepr w h = (w1, inl ci) ->
+    h_cell (getH w1 h) = Some ci /\ h_id (getH w1 h) = h_id (getH w h) /\ h_s (getH w1 h) = h_s (getH w h).
+  Proof.
+    intros w h w1 ci Hlt H. unfold sp_access in H.
+    destruct (h_cell (getH w h)) eqn:Ec.
+    - inversion H; subst. auto.
+    - destruct (h_cached (getH w h)) eqn:Ecd.
+      + inversion H; subst. rewrite getH_set_H_same by exact Hlt. auto.
+      + destruct (load_file frepr w (getH w h)); inversion H; subst.
+        rewrite getH_set_H_same by exact Hlt. auto.
+  Qed.
+
+  Lemma sp_access_idem : forall w h ci, h_cell (getH w h) = Some ci -> sp_access frepr w h = (w, inl ci).
+  Proof. intros w h ci H. unfold sp_access. rewrite H. reflexivity. Qed.
+
+  (* init_post (file part): whenever init returns normally, the state point file exists, parses, and
+     hashes to the handle's id; the handle owns a cell *)
+  Lemma init_ok_valid : forall susp force w h w',
+    (h < length (w_hs w))%nat -> init frepr susp force w h = (w', inl tt) ->
+    (exists v, load_file frepr w' (getH w' h) = inl v) /\ (exists ci, h_cell (getH w' h) = Some ci)
+    /\ h_id (getH w' h) = h_id (getH w h).
+  Proof.
+    intros susp force w h w' Hlt H. unfold init in H.
+    destruct (sp_access frepr w h) as [w1 r] eqn:E1.
+    assert (Hlen1 : length (w_hs w1) = length (w_hs w)).
+    { pose proof (sp_access_len w h) as Hl. rewrite E1 in Hl. exact Hl. }
+    assert (Hid1 : h_id (getH w1 h) = h_id (getH w h) /\ h_s (getH w1 h) = h_s (getH w h)).
+    { destruct r as [ci|e].
+      - destruct (sp_access_cell w h w1 ci Hlt E1) as [_ [? ?]]. auto.
+      - unfold sp_access in E1. destruct (h_cell (getH w h)); [discriminate|].
+        destruct (h_cached (getH w h)); [discriminate|].
+        destruct (load_file frepr w (getH w h)); inversion E1; subst; auto. }
+    destruct Hid1 as [Hid1 Hs1].
+    (* early exit? *)
+    destruct r as [ci|e].
+    - destruct (load_file frepr w1 (getH w1 h)) as [v|e] eqn:El.
+      + inversion H; subst. clear H.
+        destruct (sp_access_cell w h w1 ci Hlt E1) as [Hc _].
+        repeat split; [exists v|exists ci|]; auto.
+      + (* late path, cell known *)
+        revert H. 
+        destruct (if isdir (w_fs w1) (jobdir w1 (getH w1 h)) then _ else _) as [[f2 e2]|e2]; [|discriminate].
+        set (w2 := set_H (set_fs w1 f2 e2) h _).
+        destruct (sp_access frepr w2 h) as [w3 r3] eqn:E3.
+        destruct r3 as [ci3|e3]; [|discriminate].
+        destruct (if _ then _ else _) as [[f4 e4]|e4]; [|discriminate].
+        destruct (load_file frepr (set_fs w3 f4 e4) (getH w3 h)) as [v|ee] eqn:El4; [|discriminate].
+        intro H. inversion H; subst. clear H.
+        assert (Hlt2 : (h < length (w_hs w2))%nat).
+        { unfold w2, set_H, set_fs. simpl. rewrite length_set_nth. lia. }
+        destruct (sp_access_cell w2 h w3 ci3 Hlt2 E3) as [Hc3 [Hid3 Hs3]].
+        assert (Hid2 : h_id (getH w2 h) = h_id (getH w1 h)).
+        { unfold w2. rewrite getH_set_H_same by (simpl; lia). reflexivity. }
+        repeat split.
+        * exists v. rewrite <- El4. apply load_file_ext; [reflexivity| |reflexivity].
+          rewrite register_root. reflexivity.
+        * exists ci3. exact Hc3.
+        * simpl. rewrite getH_register. change (getH (cell_loaded (set_fs w3 f4 e4) ci3 v) h) with (getH w3 h).
+          congruence.
+    - (* late path, first access failed *)
+      revert H.
+      destruct (if isdir (w_fs w1) (jobdir w1 (getH w1 h)) then _ else _) as [[f2 e2]|e2]; [|discriminate].
+      set (w2 := set_H (set_fs w1 f2 e2) h _).
+      destruct (sp_access frepr w2 h) as [w3 r3] eqn:E3.
+      destruct r3 as [ci3|e3]; [|discriminate].
+      destruct (if _ then _ else _) as [[f4 e4]|e4]; [|discriminate].
+      destruct (load_file frepr (set_fs w3 f4 e4) (getH w3 h)) as [v|ee] eqn:El4; [|discriminate].
+      intro H. inversion H; subst. clear H.
+      assert (Hlt2 : (h < length (w_hs w2))%nat).
+      { unfold w2, set_H, set_fs. simpl. rewrite length_set_nth. lia. }
+      destruct (sp_access_cell w2 h w3 ci3 Hlt2 E3) as [Hc3 [Hid3 Hs3]].
+      assert (Hid2 : h_id (getH w2 h) = h_id (getH w1 h)).
+      { unfold w2. rewrite getH_set_H_same by (simpl; lia). reflexivity. }
+      repeat split.
+      * exists v. rewrite <- El4. apply load_file_ext; [reflexivity| |reflexivity].
+        rewrite register_root. reflexivity.
+      * exists ci3. exact Hc3.
+      * simpl. rewrite getH_register. change (getH (cell_loaded (set_fs w3 f4 e4) ci3 v) h) with (getH w3 h).
+        congruence.
+  Qed.
+
+  (* init_idempotent: a second init (with or without force) after a successful one performs no
+     file-system step and succeeds *)
+  Lemma init_twice : forall susp force susp' force' w h w',
+    (h < length (w_hs w))%nat -> init frepr susp force w h = (w', inl tt) ->
+    let '(w'', r) := init frepr susp' force' w' h in
+    r = inl tt /\ w_fs w'' = w_fs w' /\ w_tr w'' = w_tr w'.
+  Proof.
+    intros susp force susp' force' w h w' Hlt H.
+    destruct (init_ok_valid susp force w h w' Hlt H) as [[v Hv] [[ci Hc] _]].
+    apply init_valid_no_write. rewrite (sp_access_idem w' h ci Hc). eauto.
+  Qed.
 End S.
